@@ -30,8 +30,8 @@ type c03prog struct {
 	Bal    [2]int64
 	Pays   []payStep
 	Final  bool
-	Settle string // AB (A first, then B), BA, par (both concurrently)
-	Sub    bool   // open a sub-channel, pay inside, finalise it, withdraw it into the parent
+	Settle string   // AB (A first, then B), BA, par (both concurrently)
+	Sub    bool     // open a sub-channel, pay inside, finalise it, withdraw it into the parent
 	Agree  [2]int64 // funding agreement different from the initial balances (zero value: none)
 	SubRej bool     // a sub-channel proposal that the peer rejects, then one more payment
 	// SubFinalPays: the only update inside the sub-channel is final AND moves funds (no separate payment)
